@@ -16,6 +16,8 @@ import (
 	"sort"
 	"strconv"
 	"strings"
+	"sync"
+	"sync/atomic"
 	"unicode"
 	"unicode/utf8"
 )
@@ -230,5 +232,25 @@ func H_SELF_files_and_q() {
 	}
 	_, err2 := os.Open("/tmp/verif_self_missing.txt")
 	verifObserve("missing", err2 == nil)
+	verifReach("end")
+}
+
+func H_SELF_atomic() {
+	var n int32
+	var m atomic.Int64
+	var wg sync.WaitGroup
+	verifSchedAll(1)
+	wg.Add(2)
+	for i := 0; i < 2; i++ {
+		go func() {
+			atomic.AddInt32(&n, 2)
+			m.Add(3)
+			wg.Done()
+		}()
+	}
+	wg.Wait()
+	ok := atomic.CompareAndSwapInt32(&n, 4, 9)
+	verifObserve("atomic", atomic.LoadInt32(&n), m.Load(), ok)
+	verifAssert(verifRaces() == 0, "atomic operations do not race")
 	verifReach("end")
 }
